@@ -7,8 +7,10 @@
 // run:     (a) unit level: real plan.OrderTriggers on slices of chosen length/capacity (exhaustive small
 //
 //	lists + random), (b) SQL level: audit-table triggers on the real engine, one DML statement per case;
-//	plus a model-free oracle (each trigger exactly once per affected row, FOLLOWS/PRECEDES respected,
-//	a failed statement leaves no audit rows).
+//	inserted / updated values include ones the conversion to the INT columns changes (2.6, -0.5, '41', INSERT … SELECT
+//	from a DECIMAL table) and the audit columns are DECIMAL, so the OLD/NEW values a trigger sees are compared with the
+//	stored rows; plus a model-free oracle (each trigger exactly once per affected row, FOLLOWS/PRECEDES respected, OLD =
+//	the row as it was, NEW of an AFTER trigger = the stored row, a failed statement leaves no audit rows).
 package main
 
 import (
@@ -151,18 +153,53 @@ func orderOracle(ts []Trig, obs string) string {
 
 type Row struct{ A, B int }
 
+// Raw is a row of values as written in the statement, in tenths (26 = 2.6): the conversion to the INT
+// column type (round half away from zero) may change them.
+type Raw struct{ A10, B10 int }
+
 type Dml struct {
 	Kind string // insert | update | delete
-	Rows []Row
-	K    int
+	Rows []Row  // insert, exact integers (Form == "")
+	Raw  []Raw  // insert, values as written (Form != "")
+	Form string // "" | d (numeric literals) | s (quoted strings) | t (INSERT … SELECT x, y FROM src, src has DECIMAL(12,1) columns)
+	K    int    // update: b = b + K        (K10 == 0)
+	K10  int    // update: b = b + K10/10   (tenths; used when != 0)
 	Lo   int
 }
 
 func (d Dml) Event() string { return d.Kind }
 
+// tenths renders a value given in tenths as a decimal literal: 26 → 2.6, -5 → -0.5, 30 → 3.
+func tenths(x int) string {
+	sign := ""
+	if x < 0 {
+		sign, x = "-", -x
+	}
+	if x%10 == 0 {
+		return fmt.Sprintf("%s%d", sign, x/10)
+	}
+	return fmt.Sprintf("%s%d.%d", sign, x/10, x%10)
+}
+
+// roundT: tenths → INT column value, round half away from zero (the oracle's own arithmetic; the
+// engine's conversion is the thing under test).
+func roundT(x int) int {
+	if x >= 0 {
+		return (x + 5) / 10
+	}
+	return -((5 - x) / 10)
+}
+
 func (d Dml) Sexp() string {
 	switch d.Kind {
 	case "insert":
+		if d.Form != "" {
+			parts := make([]string, len(d.Raw))
+			for i, r := range d.Raw {
+				parts[i] = fmt.Sprintf(" (%d %d)", r.A10, r.B10)
+			}
+			return "(insertr " + d.Form + strings.Join(parts, "") + ")"
+		}
 		parts := make([]string, len(d.Rows))
 		for i, r := range d.Rows {
 			parts[i] = fmt.Sprintf("(%d %d)", r.A, r.B)
@@ -172,20 +209,55 @@ func (d Dml) Sexp() string {
 		}
 		return "(insert " + strings.Join(parts, " ") + ")"
 	case "update":
+		if d.K10 != 0 {
+			return fmt.Sprintf("(updater %d %d)", d.K10, d.Lo)
+		}
 		return fmt.Sprintf("(update %d %d)", d.K, d.Lo)
 	}
 	return fmt.Sprintf("(delete %d)", d.Lo)
 }
 
+// Setup: statements that prepare the row source of the DML statement (form t).
+func (d Dml) Setup() []string {
+	if d.Kind != "insert" || d.Form != "t" {
+		return nil
+	}
+	st := []string{"CREATE TABLE src (i INT PRIMARY KEY, x DECIMAL(12,1), y DECIMAL(12,1))"}
+	for i, r := range d.Raw {
+		st = append(st, fmt.Sprintf("INSERT INTO src VALUES (%d,%s,%s)", i+1, tenths(r.A10), tenths(r.B10)))
+	}
+	return st
+}
+
 func (d Dml) SQL() string {
 	switch d.Kind {
 	case "insert":
+		switch d.Form {
+		case "t":
+			return "INSERT INTO t SELECT x, y FROM src ORDER BY i"
+		case "d", "s":
+			q := ""
+			if d.Form == "s" {
+				q = "'"
+			}
+			parts := make([]string, len(d.Raw))
+			for i, r := range d.Raw {
+				parts[i] = fmt.Sprintf("(%s%s%s,%s%s%s)", q, tenths(r.A10), q, q, tenths(r.B10), q)
+			}
+			return "INSERT INTO t VALUES " + strings.Join(parts, ",")
+		}
 		parts := make([]string, len(d.Rows))
 		for i, r := range d.Rows {
 			parts[i] = fmt.Sprintf("(%d,%d)", r.A, r.B)
 		}
 		return "INSERT INTO t VALUES " + strings.Join(parts, ",")
 	case "update":
+		if d.K10 != 0 {
+			if d.K10 < 0 {
+				return fmt.Sprintf("UPDATE t SET b = b - %s WHERE a >= %d", tenths(-d.K10), d.Lo)
+			}
+			return fmt.Sprintf("UPDATE t SET b = b + %s WHERE a >= %d", tenths(d.K10), d.Lo)
+		}
 		return fmt.Sprintf("UPDATE t SET b = b + %d WHERE a >= %d", d.K, d.Lo)
 	}
 	return fmt.Sprintf("DELETE FROM t WHERE a >= %d", d.Lo)
@@ -223,6 +295,8 @@ type SQLCase struct {
 	Noise []string // triggers of other events (must not fire)
 	Rows  []Row
 	Dml   Dml
+
+	srcAfter string // form t: contents of the source table after the statement
 }
 
 func (c *SQLCase) Sexp() string {
@@ -246,12 +320,18 @@ func cellS(r *eng.Res, i, j int) string {
 	return r.Rows[i][j]
 }
 
+// cellD: a DECIMAL(12,1) audit cell; "3.0" → "3", "2.6" stays.
+func cellD(r *eng.Res, i, j int) string {
+	return strings.TrimSuffix(cellS(r, i, j), ".0")
+}
+
 func runSQL(c *SQLCase) string {
 	e := eng.New("d")
 	ctx := e.Ctx()
 	q := func(s string) *eng.Res { return e.Query(eng.SameSession(ctx), s) }
 	setup := []string{"CREATE TABLE t (a INT PRIMARY KEY, b INT)",
-		"CREATE TABLE au (id INT PRIMARY KEY AUTO_INCREMENT, n INT, oa INT, ob INT, na INT, nb INT)"}
+		// the audit columns are wider than t's: a value a trigger sees without conversion to INT stays visible
+		"CREATE TABLE au (id INT PRIMARY KEY AUTO_INCREMENT, n INT, oa DECIMAL(12,1), ob DECIMAL(12,1), na DECIMAL(12,1), nb DECIMAL(12,1))"}
 	for _, r := range c.Rows {
 		setup = append(setup, fmt.Sprintf("INSERT INTO t VALUES (%d,%d)", r.A, r.B))
 	}
@@ -259,12 +339,23 @@ func runSQL(c *SQLCase) string {
 		setup = append(setup, triggerSQL(t, c.Dml.Event()))
 	}
 	setup = append(setup, c.Noise...)
+	setup = append(setup, c.Dml.Setup()...)
 	for _, s := range setup {
 		if r := q(s); r.Class() != "ok" {
 			return "setup-" + r.Class() + ":" + s
 		}
 	}
 	res := q(c.Dml.SQL())
+	c.srcAfter = ""
+	if c.Dml.Form == "t" {
+		// the row source must not be changed by the statement that reads it
+		sr := q("SELECT x,y FROM src ORDER BY i")
+		var rows []string
+		for i := range sr.Rows {
+			rows = append(rows, cellD(sr, i, 0)+":"+cellD(sr, i, 1))
+		}
+		c.srcAfter = sr.Class() + "|" + strings.Join(rows, ",")
+	}
 	ar := q("SELECT n,oa,ob,na,nb FROM au ORDER BY id")
 	tr := q("SELECT a,b FROM t ORDER BY a")
 	if ar.Class() != "ok" || tr.Class() != "ok" {
@@ -272,7 +363,7 @@ func runSQL(c *SQLCase) string {
 	}
 	var au, tb []string
 	for i := range ar.Rows {
-		au = append(au, strings.Join([]string{cellS(ar, i, 0), cellS(ar, i, 1), cellS(ar, i, 2), cellS(ar, i, 3), cellS(ar, i, 4)}, ":"))
+		au = append(au, strings.Join([]string{cellS(ar, i, 0), cellD(ar, i, 1), cellD(ar, i, 2), cellD(ar, i, 3), cellD(ar, i, 4)}, ":"))
 	}
 	for i := range tr.Rows {
 		tb = append(tb, cellS(tr, i, 0)+":"+cellS(tr, i, 1))
@@ -280,8 +371,56 @@ func runSQL(c *SQLCase) string {
 	return res.Class() + "|" + strings.Join(au, ",") + "|" + strings.Join(tb, ",")
 }
 
-// sqlOracle evaluates the property on the observation alone.
-func sqlOracle(c *SQLCase, obs string) string {
+// parseT parses an audit cell ("2.6", "-0.5", "3") into tenths.
+func parseT(s string) (int, bool) {
+	neg := strings.HasPrefix(s, "-")
+	s = strings.TrimPrefix(s, "-")
+	ip, fp := s, "0"
+	if i := strings.IndexByte(s, '.'); i >= 0 {
+		ip, fp = s[:i], s[i+1:]
+	}
+	var x, f int
+	if _, err := fmt.Sscanf(ip, "%d", &x); err != nil || len(fp) != 1 {
+		return 0, false
+	}
+	if _, err := fmt.Sscanf(fp, "%d", &f); err != nil {
+		return 0, false
+	}
+	v := x*10 + f
+	if neg {
+		v = -v
+	}
+	return v, true
+}
+
+// sqlOracle evaluates the property on the observation alone: each trigger once per affected row, in an order
+// that respects FOLLOWS/PRECEDES and BEFORE/AFTER; OLD = the row as it was, NEW of an AFTER trigger = the row as
+// it is stored, what the last BEFORE trigger leaves in NEW = what is stored; a failed statement leaves no audit
+// rows; the statement's row source is not modified.
+func sqlOracle(c *SQLCase, obs string) (tag, msg string) {
+	if msg = sqlOracleUntagged(c, obs); msg != "" {
+		return "-", msg
+	}
+	// the values a BEFORE INSERT trigger sees in NEW are values of the column types
+	parts := strings.Split(obs, "|")
+	if c.Dml.Kind == "insert" && len(parts) == 3 && parts[0] == "ok" && parts[1] != "" {
+		bf := map[string]bool{}
+		for _, t := range c.Trigs {
+			if t.Time == "b" {
+				bf[fmt.Sprintf("%d", t.Name)] = true
+			}
+		}
+		for _, a := range strings.Split(parts[1], ",") {
+			f := strings.Split(a, ":")
+			if len(f) == 5 && bf[f[0]] && (strings.Contains(f[3], ".") || strings.Contains(f[4], ".")) {
+				return "before_insert_new_unconverted", fmt.Sprintf("BEFORE INSERT trigger t%s saw NEW = (%s,%s): not values of the INT columns", f[0], f[3], f[4])
+			}
+		}
+	}
+	return "-", ""
+}
+
+func sqlOracleUntagged(c *SQLCase, obs string) string {
 	parts := strings.Split(obs, "|")
 	if len(parts) != 3 {
 		return "unexpected observation " + obs
@@ -298,33 +437,80 @@ func sqlOracle(c *SQLCase, obs string) string {
 		}
 		return ""
 	}
-	// affected row keys, in statement order
+	if c.Dml.Form == "t" {
+		var rows []string
+		for _, r := range c.Dml.Raw {
+			rows = append(rows, tenths(r.A10)+":"+tenths(r.B10))
+		}
+		if want := "ok|" + strings.Join(rows, ","); c.srcAfter != want {
+			return fmt.Sprintf("the statement changed its row source: src holds %s afterwards, %s before", c.srcAfter, want)
+		}
+	}
+	stored := map[int]string{} // final table
+	if parts[2] != "" {
+		for _, rw := range strings.Split(parts[2], ",") {
+			ab := strings.SplitN(rw, ":", 2)
+			var k int
+			fmt.Sscanf(ab[0], "%d", &k)
+			stored[k] = ab[1]
+		}
+	}
+	before := map[int]Row{}
+	for _, r := range c.Rows {
+		before[r.A] = r
+	}
+	// affected row keys, in statement order, and the b value as written (insert) / computed (update), in tenths
 	var keys []int
+	written := map[int]int{}
 	switch c.Dml.Kind {
 	case "insert":
-		for _, r := range c.Dml.Rows {
-			keys = append(keys, r.A)
+		if c.Dml.Form != "" {
+			for _, r := range c.Dml.Raw {
+				keys = append(keys, roundT(r.A10))
+				written[roundT(r.A10)] = r.B10
+			}
+		} else {
+			for _, r := range c.Dml.Rows {
+				keys = append(keys, r.A)
+				written[r.A] = 10 * r.B
+			}
 		}
 	default:
 		for _, r := range c.Rows {
 			if r.A >= c.Dml.Lo {
 				keys = append(keys, r.A)
+				written[r.A] = 10*(r.B+c.Dml.K) + c.Dml.K10
 			}
 		}
 	}
-	per := map[string][]string{}
+	per := map[int][][]string{}
 	for _, a := range audit {
-		k := a[1]
+		cell := a[1]
 		if c.Dml.Kind == "insert" {
-			k = a[3]
+			cell = a[3]
 		}
-		per[k] = append(per[k], a[0])
+		v, ok := parseT(cell)
+		if !ok {
+			return fmt.Sprintf("audit row %v has no key", a)
+		}
+		per[roundT(v)] = append(per[roundT(v)], a)
 	}
 	if len(per) > len(keys) {
 		return "triggers fired for rows the statement does not affect"
 	}
+	timing := map[string]string{}
+	hasSet := false
+	for _, t := range c.Trigs {
+		timing[fmt.Sprintf("%d", t.Name)] = t.Time
+		if t.SetB != nil {
+			hasSet = true
+		}
+	}
 	for _, k := range keys {
-		fired := per[fmt.Sprintf("%d", k)]
+		var fired []string
+		for _, a := range per[k] {
+			fired = append(fired, a[0])
+		}
 		count := map[string]int{}
 		pos := map[string]int{}
 		for i, n := range fired {
@@ -353,6 +539,44 @@ func sqlOracle(c *SQLCase, obs string) string {
 				}
 			}
 		}
+		// OLD / NEW values
+		ks := fmt.Sprintf("%d", k)
+		lastBefore := ""
+		for _, a := range per[k] {
+			oldWant := "N:N"
+			if c.Dml.Kind != "insert" {
+				oldWant = fmt.Sprintf("%d:%d", before[k].A, before[k].B)
+			}
+			if a[1]+":"+a[2] != oldWant {
+				return fmt.Sprintf("trigger t%s saw OLD = (%s,%s) for row a=%d, the row was (%s)", a[0], a[1], a[2], k, oldWant)
+			}
+			if c.Dml.Kind == "delete" {
+				if a[3]+":"+a[4] != "N:N" {
+					return fmt.Sprintf("DELETE trigger t%s saw NEW = (%s,%s)", a[0], a[3], a[4])
+				}
+				continue
+			}
+			if timing[a[0]] == "a" {
+				if a[3] != ks || a[4] != stored[k] {
+					return fmt.Sprintf("AFTER trigger t%s saw NEW = (%s,%s) for row a=%d, the stored row is (%s,%s)", a[0], a[3], a[4], k, ks, stored[k])
+				}
+			} else if timing[a[0]] == "b" {
+				lastBefore = a[4]
+			}
+		}
+		if c.Dml.Kind != "delete" {
+			if _, ok := stored[k]; !ok {
+				return fmt.Sprintf("the statement succeeded but row a=%d is not in the table", k)
+			}
+			if lastBefore != "" {
+				if v, ok := parseT(lastBefore); !ok || fmt.Sprintf("%d", roundT(v)) != stored[k] {
+					return fmt.Sprintf("the last BEFORE trigger left NEW.b = %s for row a=%d, but %s was stored", lastBefore, k, stored[k])
+				}
+			}
+			if !hasSet && fmt.Sprintf("%d", roundT(written[k])) != stored[k] {
+				return fmt.Sprintf("row a=%d: b = %s was written (no trigger assigns NEW.b), %s was stored", k, tenths(written[k]), stored[k])
+			}
+		}
 	}
 	return ""
 }
@@ -367,7 +591,7 @@ func run(a hx.RunArgs) error {
 	out.Rule = "order: trigger lists (creation order) with BEFORE/AFTER timing and FOLLOWS/PRECEDES clauses, passed to the real plan.OrderTriggers in slices " +
 		"of several capacities — exhaustive for ≤3 triggers (all references, also dangling ones), exhaustive well-formed lists of 4-5 triggers, random up to 9; " +
 		"stmt: audit-table triggers on the real engine (1-7 triggers of the statement's event, optional SET NEW.b, noise triggers of other events), one INSERT " +
-		"(multi-row, sometimes with a duplicate key) / UPDATE / DELETE per case; a case is non-trivial when it has an ordering clause (order) or at least two triggers fired for at least one row (stmt)"
+		"(multi-row, sometimes with a duplicate key; half of them with values the conversion to the INT columns changes — decimal literals, quoted strings, INSERT … SELECT from a DECIMAL table) / UPDATE (b = b + k, k integer or decimal) / DELETE per case; a case is non-trivial when it has an ordering clause (order) or at least two triggers fired for at least one row (stmt)"
 	r := hx.NewRand(a.Seed)
 
 	orderCase := func(ts []Trig, capacity int) {
@@ -400,8 +624,14 @@ func run(a hx.RunArgs) error {
 		id := out.Case(c.Sexp(), obs, len(c.Trigs) >= 2 && strings.Count(obs, ":") > 8)
 		out.Stat("stmt:" + c.Dml.Kind)
 		out.Stat("stmt:outcome:" + strings.SplitN(obs, "|", 2)[0])
-		if msg := sqlOracle(c, obs); msg != "" {
-			out.OracleFail(id, "-", msg+" — "+c.Dml.SQL())
+		if tag, msg := sqlOracle(c, obs); msg != "" {
+			out.OracleFail(id, tag, msg+" — "+c.Dml.SQL())
+		}
+		if c.Dml.Kind == "insert" && c.Dml.Form != "" {
+			out.Stat("stmt:insert:form-" + c.Dml.Form)
+		}
+		if c.Dml.K10 != 0 {
+			out.Stat("stmt:update:fractional")
 		}
 	}
 
@@ -424,6 +654,21 @@ func run(a hx.RunArgs) error {
 	sqlCase(&SQLCase{Trigs: []Trig{{1, "b", "n", 0, ip(1)}, {2, "a", "n", 0, nil}, {3, "b", "n", 0, ip(10)}, {4, "a", "p", 2, nil}},
 		Rows: []Row{{1, 10}, {2, 20}, {3, 30}}, Dml: Dml{Kind: "update", K: 100, Lo: 2}})
 	sqlCase(&SQLCase{Trigs: []Trig{{1, "b", "n", 0, nil}, {2, "a", "n", 0, nil}}, Rows: []Row{{1, 10}, {2, 20}}, Dml: Dml{Kind: "delete", Lo: 2}})
+
+	// values that the conversion to the column type changes (2.6 → 3, -0.5 → -1, '41' → 41): what AFTER triggers see in
+	// NEW must be the stored row, whatever the row source is (literals, strings, INSERT … SELECT from a DECIMAL table)
+	aft := []Trig{{1, "a", "n", 0, nil}, {2, "a", "n", 0, nil}}
+	for _, form := range []string{"d", "s", "t"} {
+		sqlCase(&SQLCase{Trigs: aft[:1], Dml: Dml{Kind: "insert", Form: form, Raw: []Raw{{10, 26}}}})
+		sqlCase(&SQLCase{Trigs: aft, Rows: []Row{{2, 20}}, Dml: Dml{Kind: "insert", Form: form, Raw: []Raw{{10, 26}, {34, -5}, {46, 410}, {60, 5}, {74, 125}}}})
+	}
+	sqlCase(&SQLCase{Trigs: aft, Rows: []Row{{1, 10}, {2, 20}, {3, 30}}, Dml: Dml{Kind: "update", K10: 16, Lo: 2}})
+	sqlCase(&SQLCase{Trigs: []Trig{{1, "b", "n", 0, ip(1)}, {2, "a", "n", 0, nil}, {3, "b", "n", 0, nil}}, Rows: []Row{{1, 10}, {2, 20}, {3, 30}}, Dml: Dml{Kind: "update", K10: -25, Lo: 1}})
+	// BEFORE INSERT triggers see the values as written (finding before_insert_new_unconverted); SET NEW.b works on the converted value
+	sqlCase(&SQLCase{Trigs: []Trig{{1, "b", "n", 0, nil}}, Dml: Dml{Kind: "insert", Form: "d", Raw: []Raw{{10, 26}}}})
+	sqlCase(&SQLCase{Trigs: []Trig{{1, "b", "n", 0, nil}, {2, "b", "n", 0, ip(1)}, {3, "a", "n", 0, nil}}, Dml: Dml{Kind: "insert", Form: "d", Raw: []Raw{{10, -5}, {24, 26}, {35, 70}, {50, 5}}}})
+	sqlCase(&SQLCase{Trigs: []Trig{{1, "b", "n", 0, nil}, {2, "b", "n", 0, ip(1)}, {3, "a", "n", 0, nil}}, Dml: Dml{Kind: "insert", Form: "t", Raw: []Raw{{10, -5}, {24, 26}, {35, 70}, {50, 5}}}})
+	sqlCase(&SQLCase{Trigs: []Trig{{1, "b", "n", 0, nil}, {3, "a", "n", 0, nil}}, Dml: Dml{Kind: "insert", Form: "s", Raw: []Raw{{10, -5}, {24, 26}}}})
 
 	// exhaustive: n ≤ 3, every timing / clause / reference (dangling and forward references included)
 	names := func(n int) []int {
@@ -519,6 +764,19 @@ func run(a hx.RunArgs) error {
 		ts := randTrigs(n, r.Chance(4, 5), false)
 		orderCase(ts, n+r.Intn(n+2))
 	}
+	r = r.Fork()
+	rawVal := func(base int) int { // a value as written, in tenths, that converts to `base` (or, rarely, to a neighbour)
+		switch r.Intn(6) {
+		case 0, 1:
+			return 10*base + r.Range(-4, 4)
+		case 2:
+			if base >= 0 {
+				return 10*base - 5 // x.5 rounds away from zero
+			}
+			return 10*base + 5
+		}
+		return 10 * base
+	}
 	for i := 0; i < nSQL; i++ {
 		c := &SQLCase{}
 		ev := hx.Pick(r, []string{"insert", "update", "delete", "insert"})
@@ -545,8 +803,32 @@ func run(a hx.RunArgs) error {
 				c.Dml.Rows = []Row{{A: 99, B: 1}}
 			}
 			c.Dml.Kind = "insert"
+			if r.Chance(1, 2) {
+				// the same rows, written as values that still have to be converted to the INT columns
+				c.Dml.Form = hx.Pick(r, []string{"d", "d", "s", "t"})
+				for _, t := range c.Trigs {
+					// a quoted string as operand of a BEFORE trigger's NEW.b + k is converted by the arithmetic, not by
+					// the column ('-0.5' + 1 → 1): the conversion rules of expressions are not this property's subject
+					if c.Dml.Form == "s" && t.Time == "b" && t.SetB != nil {
+						c.Dml.Form = "d"
+					}
+				}
+				for _, rw := range c.Dml.Rows {
+					b := rw.B
+					if r.Chance(1, 5) {
+						b = r.Range(-3, 1)
+					}
+					c.Dml.Raw = append(c.Dml.Raw, Raw{A10: rawVal(rw.A), B10: rawVal(b)})
+				}
+				c.Dml.Rows = nil
+			}
 		case "update":
 			c.Dml = Dml{Kind: "update", K: 1 + r.Intn(20), Lo: r.Intn(8)}
+			if r.Chance(1, 3) {
+				if c.Dml.K10 = r.Range(-45, 45); c.Dml.K10 != 0 {
+					c.Dml.K = 0
+				}
+			}
 		default:
 			c.Dml = Dml{Kind: "delete", Lo: r.Intn(8)}
 		}
@@ -673,6 +955,106 @@ func extract(a hx.ExtractArgs) error {
 		return fmt.Errorf("applyTrigger: expected 3 DML cases with a BEFORE/AFTER split, found %v", wraps)
 	}
 	lf.DefStringList("wraps", wraps)
+
+	// row flow: which row a DML iterator stores and which row it hands to its parent (the AFTER trigger executor
+	// prepends the row it receives from its child to the trigger logic as OLD/NEW)
+	flow := func(rel, recv string, pick func(src *hx.Src, n ast.Node) string) ([]string, error) {
+		fsrc, err := hx.ParseSrc(a.Repo, rel)
+		if err != nil {
+			return nil, err
+		}
+		fn, err := fsrc.Func(recv, "Next")
+		if err != nil {
+			return nil, err
+		}
+		var res []string
+		ast.Inspect(fn.Body, func(n ast.Node) bool {
+			if n == nil {
+				return true
+			}
+			if _, ok := n.(*ast.FuncLit); ok {
+				return false
+			}
+			if x := pick(fsrc, n); x != "" {
+				res = append(res, x)
+			}
+			return true
+		})
+		if last, ok := fn.Body.List[len(fn.Body.List)-1].(*ast.ReturnStmt); ok {
+			parts := make([]string, len(last.Results))
+			for i, x := range last.Results {
+				parts[i] = squash(fsrc.Text(x))
+			}
+			res = append(res, "return:"+strings.Join(parts, ","))
+		} else {
+			return nil, fmt.Errorf("%s: %s.Next does not end in a return statement", rel, recv)
+		}
+		return res, nil
+	}
+	callArgs := func(src *hx.Src, c *ast.CallExpr) string {
+		parts := make([]string, len(c.Args))
+		for i, x := range c.Args {
+			parts[i] = squash(src.Text(x))
+		}
+		return strings.Join(parts, ",")
+	}
+	insFlow, err := flow("sql/rowexec/insert.go", "insertIter", func(src *hx.Src, n ast.Node) string {
+		switch x := n.(type) {
+		case *ast.AssignStmt:
+			if len(x.Rhs) == 1 {
+				rhs := squash(src.Text(x.Rhs[0]))
+				if rhs == "converted" || rhs == "i.rowSource.Next(ctx)" || strings.HasPrefix(rhs, "convertDataAndWarn(") {
+					return "assign:" + squash(src.Text(x))
+				}
+			}
+		case *ast.CallExpr:
+			if f := squash(src.Text(x.Fun)); f == "i.inserter.Insert" || f == "i.replacer.Insert" {
+				return "store:" + f + "(" + callArgs(src, x) + ")"
+			}
+		}
+		return ""
+	})
+	if err != nil {
+		return err
+	}
+	lf.DefStringList("insertFlow", insFlow)
+	updFlow, err := flow("sql/rowexec/update.go", "updateIter", func(src *hx.Src, n ast.Node) string {
+		switch x := n.(type) {
+		case *ast.AssignStmt:
+			if len(x.Lhs) == 2 && squash(src.Text(x.Lhs[1])) == "newRow" {
+				return "assign:" + squash(src.Text(x))
+			}
+			if len(x.Rhs) == 1 && squash(src.Text(x.Rhs[0])) == "u.childIter.Next(ctx)" {
+				return "assign:" + squash(src.Text(x))
+			}
+		case *ast.CallExpr:
+			if f := squash(src.Text(x.Fun)); f == "u.updater.Update" {
+				return "store:" + f + "(" + callArgs(src, x) + ")"
+			}
+		}
+		return ""
+	})
+	if err != nil {
+		return err
+	}
+	lf.DefStringList("updateFlow", updFlow)
+	trigFlow, err := flow("sql/rowexec/dml_iters.go", "triggerIter", func(src *hx.Src, n ast.Node) string {
+		switch x := n.(type) {
+		case *ast.AssignStmt:
+			if len(x.Rhs) == 1 && squash(src.Text(x.Rhs[0])) == "t.child.Next(ctx)" {
+				return "assign:" + squash(src.Text(x))
+			}
+		case *ast.CallExpr:
+			if f := squash(src.Text(x.Fun)); f == "prependRowInPlanForTriggerExecution" || f == "t.b.buildNodeExec" || f == "shouldUseLogicResult" {
+				return "call:" + f + "(" + callArgs(src, x) + ")"
+			}
+		}
+		return ""
+	})
+	if err != nil {
+		return err
+	}
+	lf.DefStringList("triggerFlow", trigFlow)
 
 	// run-time fact: capacities of a trigger slice grown by single appends (as applyTriggers builds it)
 	var capsList []uint64
